@@ -166,7 +166,14 @@ def work(item):
         npaths += 1
         if kind == 'abort':
             if val.inconclusive:
-                res['inconclusive'].append('abort %s %r' % (val.why, item[:8]))
+                prob = None
+                if ctx.check() == 'sat':
+                    prob, dtv = replay(ctx.model(), None, None)      # the float run may decide what the symbolic run could not finish
+                if prob:
+                    res['obligations'] += 1
+                    res['violations'].append(('flux:%s' % tpath, '%s (witness from the float run; symbolic run: %s)' % (prob, val.why), dict(kind='flux', item=[str(x) for x in item[:8]], dt=str(dtv))))
+                else:
+                    res['inconclusive'].append('abort %s %r' % (val.why, item[:8]))
             continue
         if kind == 'exc':
             res['obligations'] += 1
